@@ -143,6 +143,10 @@ def observe(p, tp=None, lines=None, exc=None, stdout=None):
     o["errors"] = errors_of(p)
     o["printouts"] = list(tp.lines) if tp is not None else None
     o["exc"] = (type(exc).__name__, str(exc)[:200]) if exc is not None else None
+    try:
+        o["last_line"] = p.line_monitor.physical_line_number if p.scanner is not None else None
+    except Exception:  # noqa: BLE001
+        o["last_line"] = None
     if stdout is not None:
         o["stdout"] = stdout
     return o
